@@ -11,8 +11,13 @@ Case (driver "launch"):
   {"cfg": {"hold_all": bool (every command after the STATUS_CLIENT subscription is answered only by an "own" action),
            "datadir": "none"|"existing"|"new",  "timeout": null|int,  "kill_on_stderr": bool,
            "socks": null|int,  "control": null|int|"unix",  "non_anon": bool,  "auto": bool,
-           "stdout": 0|1|2,  "progress_cb": bool,  "stdio": bool},
+           "stdout": 0|1|2,  "progress_cb": bool,  "stdio": bool,
+           "direct": bool (the caller constructs and spawns the public TorProcessProtocol itself; no launch()),
+           "ask_at_start": bool (somebody asks when_connected() right after the spawn)},
    "sched": [action, ...]}
+Case (driver "pair"): two such launches on ONE reactor:
+  {"launches": [case, case], "order": [0|1, ...] (whose next action runs), "b_start": k (B is launched just
+   before step k)}; every per-launch obligation is checked for both after every action, whoever's it was.
 Actions (an action that is not enabled when its turn comes is skipped and counted):
   ["line"]            the child's stdout up to the end of the current line, as one chunk
   ["out", n]          the next n bytes of the child's stdout
@@ -28,10 +33,11 @@ Actions (an action that is not enabled when its turn comes is skipped and counte
   ["tick", q]         the clock advances by q quarters of the timeout (q seconds without timeout)
   ["timeout"]         the clock advances just past the timeout
   ["exit", kind, v]   processExited+processEnded;  ["exited", kind, v] / ["ended"] deliver them apart
+  ["ask"]             the caller obtains one more Deferred from the process protocol's when_connected()
 After the schedule a fixed epilogue runs ("whatever follows"): processEnded if only processExited was
 delivered, outstanding ownership commands acknowledged (while Tor lives), everything pending delivered,
 and - once the process has ended - connections lost, pending connects refused and the clock moved past
-the timeout.
+the timeout; finally one more ["ask"].
 """
 from __future__ import annotations
 
@@ -59,7 +65,10 @@ RULE = ("Cases = launch() configuration (temp / existing / not-yet-existing call
         "with repeats, other STATUS_CLIENT events, connection loss, clock advances, process exit by code "
         "or signal (processExited/processEnded together or apart), then a fixed epilogue. Quick: "
         "Hypothesis draws schedules from a light enabling model; thorough adds every order-preserving "
-        "interleaving of fixed action threads (7-10 actions). Non-trivial = the process was spawned, at "
+        "interleaving of fixed action threads (7-10 actions). Also: the public TorProcessProtocol driven "
+        "directly (nobody waiting unless the schedule asks), when_connected() asked at arbitrary points of the "
+        "schedule, and (driver 'pair') two launches alive on one reactor with merged schedules. "
+        "Non-trivial = the process was spawned, at "
         "least two of {control connection authenticated, PROGRESS=100 delivered, timeout elapsed, process "
         "ended} actually happened, and the launch result fired; distinct = distinct canonical JSON of the "
         "whole case.")
@@ -89,6 +98,12 @@ ASSUMPTIONS = [
     "a Deferred obtained from the public TorProcessProtocol.when_connected() after the outcome must not "
     "succeed unless PROGRESS=100 had been delivered (it is one of the property's observation points)",
     "stdout is ASCII log text; 'Opening Control listener' appears at most twice (two listeners)",
+    "every Deferred obtained from when_connected() - before the outcome, after it, between the process end and "
+    "a late PROGRESS=100, on a protocol nobody was waiting on - is 'the launch result': the same obligations "
+    "apply to each (a TorProcessProtocol constructed directly, as the repo's tests and pre-launch() callers do, "
+    "has no temporary directory and no launch() Deferred; only the when_connected() obligations are checked)",
+    "two launches on one reactor are independent: 'the process' in 'removed once the process has ended' is the "
+    "launch's own process; the clock is shared, each launch's timeout counts from its own start",
 ]
 
 # ----------------------------------------------------------------------------- fixed material
@@ -156,9 +171,10 @@ def chunk_end(stream, pos, action):
 class _Fire(object):
     """Observes one Deferred: every firing with the logical time at which it happened."""
 
-    def __init__(self, world, d, name):
+    def __init__(self, world, d, name, asked_act=-1):
         self.world = world
         self.name = name
+        self.asked_act = asked_act  # index of the action at which the Deferred was obtained (-1: at the start)
         self.fires = []             # (tick, "ok"|"fail", value-or-failure)
         self.judged = False
         d.addCallbacks(self._ok, self._err)
@@ -295,14 +311,28 @@ class _Conn(object):
 
 
 class _World(object):
-    def __init__(self, case, res):
+    """One launch (or one directly driven TorProcessProtocol) and everything around it.  Several worlds
+    may share a reactor (driver "pair"); `group` is the list of worlds on that reactor."""
+
+    def __init__(self, case, res, reactor=None, name="", group=None, clock=None):
         self.case = case
         self.cfg = cfg = case["cfg"]
         self.res = res
-        self._tick = 0
+        self.name = name
+        self._clock = clock if clock is not None else [0]     # logical time, shared within a group
+        self.group = group if group is not None else [self]
         self.auto = bool(cfg.get("auto", True))
-        self.reactor = FakeReactor()
+        self.reactor = reactor if reactor is not None else FakeReactor()
+        self.direct = bool(cfg.get("direct", False))
         self.T = cfg.get("timeout")
+        self.t0 = 0.0
+        self.started = False
+        self.observers = []         # every _Fire of this world, in the order obtained
+        self.L = None
+        self.W = None
+        self.sig_before = 0
+        self.sig_during = []
+        self.exited_at_timeout = False
         self.stream = b"".join(STDOUTS[cfg.get("stdout", 0) % len(STDOUTS)])
         self.pos = 0
         self.pending_connects = []
@@ -327,8 +357,8 @@ class _World(object):
         self.labels = set()
 
     def tick(self):
-        self._tick += 1
-        return self._tick
+        self._clock[0] += 1
+        return self._clock[0]
 
     def note_100(self, conn):
         if self.first100_act is None:
@@ -341,7 +371,7 @@ class _World(object):
         kw = {}
         dd = cfg.get("datadir", "none")
         if dd == "existing":
-            self.callerdir = os.path.join(box, "mydata")
+            self.callerdir = os.path.join(box, "mydata" + self.name.strip(": "))
             os.mkdir(self.callerdir, 0o700)
             os.mkdir(os.path.join(self.callerdir, "keep"))
             self.marker = os.path.join(self.callerdir, "keep", "marker.txt")
@@ -349,7 +379,7 @@ class _World(object):
                 f.write("caller's file\n")
             kw["data_directory"] = self.callerdir
         elif dd == "new":
-            self.callerdir = os.path.join(box, "newdata")
+            self.callerdir = os.path.join(box, "newdata" + self.name.strip(": "))
             kw["data_directory"] = self.callerdir
         if self.T is not None:
             kw["timeout"] = self.T
@@ -361,7 +391,7 @@ class _World(object):
             kw["socks_port"] = cfg["socks"]
         ctl = cfg.get("control")
         if ctl == "unix":
-            d = os.path.join(box, "ctl")
+            d = os.path.join(box, "ctl" + self.name.strip(": "))
             os.mkdir(d, 0o700)
             kw["control_port"] = "unix:" + os.path.join(d, "control.socket")
         elif ctl is not None:
@@ -372,24 +402,46 @@ class _World(object):
             kw["stdout"] = _Sink()
             kw["stderr"] = _Sink()
         before = set(os.listdir(box))
-        try:
-            d = txtorcon.launch(self.reactor, connection_creator=self._creator,
-                                tor_binary="/usr/bin/tor", **kw)
-        except Exception as e:                      # launch() is an inlineCallbacks function: does not raise
-            self.launch_raised = e
-            return
-        self.L = _Fire(self, d, "launch()")
-        if not self.reactor.processes:
-            self.launch_raised = self.L.describe()
-            return
-        if len(self.reactor.processes) != 1:
-            self.labels.add("spawned-%d-processes" % len(self.reactor.processes))
-        self.transport = t = self.reactor.processes[0]
+        nproc = len(self.reactor.processes)
+        self.t0 = self.reactor.seconds()
+        self.started = True
+        if self.direct:
+            # the public TorProcessProtocol driven directly (as the repo's own tests and old callers do):
+            # nobody waits on when_connected() unless the schedule asks
+            try:
+                pp = txtorcon.TorProcessProtocol(
+                    self._creator, progress_updates=kw.get("progress_updates"), config=None,
+                    ireactortime=self.reactor, timeout=self.T,
+                    kill_on_stderr=kw.get("kill_on_stderr", True),
+                    stdout=kw.get("stdout"), stderr=kw.get("stderr"))
+            except TypeError as e:
+                raise HarnessError("TorProcessProtocol constructor changed: %r" % (e,))
+            self.callerdir = self.marker = None
+            tr = self.reactor.spawnProcess(pp, "/usr/bin/tor", args=["/usr/bin/tor", "-f", "/dev/null/nope"],
+                                           env={}, path=None)
+            tr.closeStdin()
+        else:
+            try:
+                d = txtorcon.launch(self.reactor, connection_creator=self._creator,
+                                    tor_binary="/usr/bin/tor", **kw)
+            except Exception as e:                  # launch() is an inlineCallbacks function: does not raise
+                self.launch_raised = e
+                return
+            self.L = _Fire(self, d, self.name + "launch()")
+            self.observers.append(self.L)
+            if len(self.reactor.processes) == nproc:
+                self.launch_raised = self.L.describe()
+                return
+        if len(self.reactor.processes) != nproc + 1:
+            self.labels.add("spawned-%d-processes" % (len(self.reactor.processes) - nproc))
+        self.transport = t = self.reactor.processes[nproc]
         # the second observation point: the process protocol's public when_connected()
         wc = getattr(t.proto, "when_connected", None)
         if wc is None:
             raise HarnessError("process protocol has no when_connected()")
-        self.W = _Fire(self, wc(), "when_connected()")
+        if cfg.get("ask_at_start", True):
+            self.W = _Fire(self, wc(), self.name + "when_connected()")
+            self.observers.append(self.W)
         # where does this Tor keep its data?  (what the real Tor would be told on its command line)
         datadir = None
         args = list(t.args)
@@ -397,7 +449,7 @@ class _World(object):
             if a == "DataDirectory":
                 datadir = args[i + 1]
         new = sorted(set(os.listdir(box)) - before)
-        if self.callerdir is None:
+        if self.callerdir is None and not self.direct:
             if datadir is not None and os.path.isdir(datadir) and \
                     os.path.realpath(os.path.dirname(datadir)) == os.path.realpath(box):
                 self.tempdir = datadir
@@ -537,24 +589,36 @@ class _World(object):
                 self.labels.add("connection-lost")
                 self.call(c.pipe.lose)
                 done = True
+        elif kind == "ask":
+            obs = None
+            try:
+                obs = _Fire(self, t.proto.when_connected(), "%swhen_connected()#%d" % (self.name, len(self.observers)),
+                            asked_act=self.act)
+            except Exception as e:
+                self.labels.add("when-connected-raised:" + type(e).__name__)
+            if obs is not None:
+                self.observers.append(obs)
+                done = True
         elif kind in ("tick", "timeout"):
+            now = self.reactor.seconds()
             if kind == "timeout":
-                if self.T is None or self.reactor.seconds() > self.T:
+                if self.T is None or now > self.t0 + self.T:
                     dt = 0
                 else:
-                    dt = self.T + 1 - self.reactor.seconds()
+                    dt = self.t0 + self.T + 1 - now
             else:
                 dt = int(action[1]) * (self.T / 4.0 if self.T else 1.0)
             if dt > 0:
-                crossing = self.T is not None and self.timeout_act is None and \
-                    self.reactor.seconds() + dt >= self.T
-                if crossing:
-                    self.timeout_act = self.act
-                    self.sig_before = len(t.signals)
-                    self.exited_at_timeout = self.exited
+                # the clock is the reactor's: every launch on it sees the time pass
+                crossing = [w for w in self.group if w.started and w.transport is not None and
+                            w.T is not None and w.timeout_act is None and now + dt >= w.t0 + w.T]
+                for w in crossing:
+                    w.timeout_act = self.act
+                    w.sig_before = len(w.transport.signals)
+                    w.exited_at_timeout = w.exited
                 self.call(self.reactor.advance, dt)
-                if crossing:
-                    self.sig_during = list(t.signals[self.sig_before:])
+                for w in crossing:
+                    w.sig_during = list(w.transport.signals[w.sig_before:])
                 done = True
         elif kind in ("exit", "exited"):
             if not self.exited:
@@ -599,6 +663,7 @@ class _World(object):
                 yield ["lose", 0]
             if self.T is not None and self.timeout_act is None:
                 yield ["timeout"]
+        yield ["ask"]
 
 
 def _firing_module(tb, fail=None):
@@ -663,127 +728,121 @@ def _justified(w, tick):
     return False, "; ".join(why) or "no control connection at all"
 
 
-def _run(case, res, box, logs):
-    w = _World(case, res)
-    w.start(box)
-    if w.launch_raised is not None or w.transport is None:
-        # launch() refused the arguments before spawning anything: nothing to schedule
-        res.label("launch-refused")
+def _scan_log(worlds, res, logs, state, i, a):
+    """A second firing that txtorcon's event dispatch swallowed shows up in the log only."""
+    for ev in logs.errors[state[0]:]:
+        f = ev.get("failure")
+        if f is not None and f.check(defer.AlreadyCalledError):
+            who = _firing_module(f.getTracebackObject(), f)
+            if who == "controller.py":
+                res.bad("result-fired-twice", "action %d %r: AlreadyCalledError logged from %s" % (i, a, who))
+            else:
+                worlds[0].labels.add("already-called-outside-launch:" + str(who))
+        elif f is not None and f.check(error.AlreadyCalled, error.AlreadyCancelled):
+            worlds[0].labels.add("late-100-cancels-dead-timer")
+    state[0] = len(logs.errors)
+
+
+def _step_checks(w, res, i, a, own_action=True):
+    """What must hold for launch `w` after every action (its own or, on a shared reactor, another launch's)."""
+    if w.transport is None:
         return
-    sched = [list(a) for a in case["sched"]]
-    nlog = 0
-    executed = []
-
-    def step(i, a):
-        nonlocal nlog
-        w.act = i
-        did = w.do(a)
-        executed.append(did)
-        # a second firing that txtorcon's event dispatch swallowed shows up in the log only
-        for ev in logs.errors[nlog:]:
-            f = ev.get("failure")
-            if f is not None and f.check(defer.AlreadyCalledError):
-                who = _firing_module(f.getTracebackObject(), f)
-                if who == "controller.py":
-                    res.bad("result-fired-twice", "action %d %r: AlreadyCalledError logged from %s" % (i, a, who))
-                else:
-                    w.labels.add("already-called-outside-launch:" + str(who))
-            elif f is not None and f.check(error.AlreadyCalled, error.AlreadyCancelled):
-                w.labels.add("late-100-cancels-dead-timer")
-        nlog = len(logs.errors)
-        # ---- every step: a success must be justified at the moment it happens
-        for obs in (w.L, w.W):
-            if obs.fires and not obs.judged:
-                obs.judged = True
-                tk, kind, val = obs.fires[0]
-                if kind == "ok":
-                    ok, why = _justified(w, tk)
-                    if not ok:
-                        with100 = [c for c in w.conns if [t for t in c.ev100_ticks if t < tk]]
-                        if not with100:
-                            tag = "success-before-bootstrap-100"
-                        elif not [c for c in with100 if c.authenticated()]:
-                            tag = "success-on-unauthenticated-connection"
-                        else:
-                            tag = "success-without-takeownership"
-                        res.bad(tag, "%s succeeded at action %d %r: %s" % (obs.name, i, a, why))
-            if len(obs.fires) > 1:
-                res.bad("result-fired-twice", "%s fired %d times" % (obs.name, len(obs.fires)))
-        # ---- every step: directories
-        if w.tempdir is not None and not w.exited and not os.path.isdir(w.tempdir):
-            if "tempdir-gone-early" not in w.labels:
-                w.labels.add("tempdir-gone-early")
+    # ---- a success must be justified at the moment it happens
+    for obs in w.observers:
+        if obs.fires and not obs.judged:
+            obs.judged = True
+            tk, kind, val = obs.fires[0]
+            if kind == "ok":
+                ok, why = _justified(w, tk)
+                if not ok:
+                    with100 = [c for c in w.conns if [t for t in c.ev100_ticks if t < tk]]
+                    if obs.asked_act >= 0 and obs.asked_act == i and own_action:
+                        # asked now and answered at once: the remembered outcome is wrong
+                        tag = "late-when-connected-succeeds-without-bootstrap"
+                    elif not with100:
+                        tag = "success-before-bootstrap-100"
+                    elif not [c for c in with100 if c.authenticated()]:
+                        tag = "success-on-unauthenticated-connection"
+                    else:
+                        tag = "success-without-takeownership"
+                    res.bad(tag, "%s succeeded at action %d %r: %s (other results: %s)" % (
+                        obs.name, i, a, why, ", ".join("%s=%s" % (o.name, o.describe())
+                                                       for o in w.observers if o is not obs)))
+        if len(obs.fires) > 1:
+            res.bad("result-fired-twice", "%s fired %d times" % (obs.name, len(obs.fires)))
+    # ---- directories
+    if w.tempdir is not None and not w.exited and not os.path.isdir(w.tempdir):
+        if "tempdir-gone-early" not in w.labels:
+            w.labels.add("tempdir-gone-early")
+            if own_action:
                 res.bad("tempdir-removed-while-process-runs",
-                        "temporary DataDirectory gone after action %d %r, process has not exited" % (i, a))
-        _check_caller_dir(w, res, "after action %d %r" % (i, a))
+                        "%stemporary DataDirectory gone after action %d %r, process has not exited" % (w.name, i, a))
+            else:
+                res.bad("tempdir-removed-by-another-launch",
+                        "%stemporary DataDirectory gone after action %d %r of the *other* launch on the same "
+                        "reactor; this launch's process has not exited" % (w.name, i, a))
+    _check_caller_dir(w, res, "after action %d %r" % (i, a))
 
-    _check_caller_dir(w, res, "right after launch() returned")
-    i = 0
-    for a in sched:
-        step(i, a)
-        i += 1
-    for a in w.epilogue():
-        sched.append(a)
-        step(i, a)
-        i += 1
 
+def _judge(w, res):
+    """End-of-case obligations of one launch; returns facts for the classification."""
     f100, ex, en, to = w.first100_act, w.exit_act, w.end_act, w.timeout_act
     INF = 10 ** 9
     f100v = INF if f100 is None else f100
-
-    # ---- the process ended before Tor reported 100%: the result must have failed
     ended_first = en is not None and f100v > en
     in_window = en is not None and ex is not None and ex < f100v < en
     timeout_first = to is not None and f100v > to and (en is None or en > to)
+    others = ", ".join("%s=%s" % (o.name, o.describe()) for o in w.observers)
+    # ---- the process ended before Tor reported 100%: every result must have failed
     if ended_first and not in_window:
-        for obs in (w.L, w.W):
-            if obs.state != "fail":
+        for obs in w.observers:
+            if obs.state == "fail":
+                continue
+            if obs.asked_act <= en:
                 res.bad("no-failure-after-process-end",
                         "%s is %s although the process ended (action %d) before any PROGRESS=100 (%r)" % (
                             obs.name, obs.describe(), en, f100))
+            elif obs.state == "pending":
+                res.bad("late-when-connected-pending-after-failure",
+                        "%s, obtained at action %d after the process had ended (action %d) before any "
+                        "PROGRESS=100 (%r), never failed; all results: %s" % (obs.name, obs.asked_act, en, f100, others))
+            else:
+                res.bad("late-when-connected-succeeds-after-process-end",
+                        "%s, obtained at action %d after the process had ended (action %d) before any "
+                        "PROGRESS=100, succeeded (100%% delivered at action %r); all results: %s" % (
+                            obs.name, obs.asked_act, en, f100, others))
     # ---- the timeout elapsed first
     if timeout_first:
-        for obs in (w.L, w.W):
+        for obs in w.observers:
+            late = obs.asked_act > to
             if obs.state == "ok":
-                res.bad("success-after-timeout",
-                        "%s succeeded although the timeout elapsed (action %d) before PROGRESS=100 (%r)" % (
-                            obs.name, to, f100))
+                res.bad("late-when-connected-succeeds-after-timeout" if late else "success-after-timeout",
+                        "%s succeeded although the timeout elapsed (action %d) before PROGRESS=100 (%r); "
+                        "all results: %s" % (obs.name, to, f100, others))
             elif w.ended and obs.state != "fail":
-                res.bad("no-failure-after-timeout",
-                        "%s is %s: timeout elapsed at action %d, process ended at %r" % (
-                            obs.name, obs.describe(), to, en))
+                if obs.asked_act > en:
+                    res.bad("late-when-connected-pending-after-failure",
+                            "%s, obtained at action %d, is pending: timeout elapsed at action %d, process ended "
+                            "at %r; all results: %s" % (obs.name, obs.asked_act, to, en, others))
+                else:
+                    res.bad("no-failure-after-timeout",
+                            "%s is %s: timeout elapsed at action %d, process ended at %r" % (
+                                obs.name, obs.describe(), to, en))
         if not w.exited_at_timeout:
             if not [s for s in w.sig_during if s in ("TERM", "KILL", 15, 9)]:
                 res.bad("no-signal-on-timeout",
-                        "timeout elapsed at action %d with the process running; signals sent during it: %r "
-                        "(all: %r)" % (to, w.sig_during, w.transport.signals))
-    # ---- a late subscriber gets the same answer
-    late = None
-    try:
-        late = _Fire(w, w.transport.proto.when_connected(), "late when_connected()")
-    except Exception as e:
-        w.labels.add("late-when-connected-raised:" + type(e).__name__)
-    if late is not None and late.state == "ok":
-        ok, why = _justified(w, late.fires[0][0])
-        if not ok:
-            res.bad("late-when-connected-succeeds-without-bootstrap",
-                    "when_connected() called after the schedule succeeded at once; launch() was %s, "
-                    "first when_connected() was %s; %s" % (w.L.describe(), w.W.describe(), why))
-
-    # ---- directories at the end
+                        "%stimeout elapsed at action %d with the process running; signals sent during it: %r "
+                        "(all: %r)" % (w.name, to, w.sig_during, w.transport.signals))
+    # ---- directories at the end (before any shutdown trigger)
     if w.tempdir is not None and w.ended and os.path.exists(w.tempdir):
         res.bad("tempdir-left-after-process-end",
-                "temporary DataDirectory %s still exists; processEnded was delivered at action %d" % (
-                    os.path.basename(w.tempdir), en))
-    trig_errors = w.reactor.fire_triggers("shutdown")
-    if trig_errors:
-        w.labels.add("shutdown-trigger-raised")
-    _check_caller_dir(w, res, "after the reactor's shutdown triggers ran")
-    if w.tempdir is not None and not w.ended:
-        res.label("tempdir-process-never-ended:" + ("removed-at-shutdown" if not os.path.exists(w.tempdir)
-                                                     else "left-at-shutdown"))
+                "%stemporary DataDirectory %s still exists; processEnded was delivered at action %d" % (
+                    w.name, os.path.basename(w.tempdir), en))
+    return {"in_window": in_window, "timeout_first": timeout_first, "ended_first": ended_first}
 
-    # ---- classification
+
+def _classify(w, res, case_cfg, sched, facts):
+    f100, ex, en, to = w.first100_act, w.exit_act, w.end_act, w.timeout_act
     happened = 0
     if any(c.authenticated() for c in w.conns):
         happened += 1
@@ -793,18 +852,34 @@ def _run(case, res, box, logs):
         happened += 1
     if w.ended:
         happened += 1
-    fired = w.L.state != "pending" or w.W.state != "pending"
-    res.nontrivial = bool(happened >= 2 and fired)
-    res.label("launch:" + w.L.state, "when_connected:" + w.W.state)
+    fired = any(o.state != "pending" for o in w.observers)
+    if w.L is not None:
+        res.label("launch:" + w.L.state)
+    if w.W is not None:
+        res.label("when_connected:" + w.W.state)
+    if w.direct:
+        res.label("direct-process-protocol")
+    asks = [o for o in w.observers if o.asked_act >= 0]
+    outcome_at = min([x for x in (f100, en, to) if x is not None] or [10 ** 9])
+    if len(asks) > 1:
+        res.label("asked-when-connected-during-schedule")
+    if [o for o in asks[:-1] if o.asked_act > outcome_at]:
+        res.label("asked-after-outcome-within-schedule")
+    if [o for o in asks if en is not None and o.asked_act > en and f100 is not None and f100 > o.asked_act]:
+        res.label("asked-between-process-end-and-late-100")
+    if w.direct and not [o for o in w.observers if o.asked_act < outcome_at] and outcome_at < 10 ** 9:
+        res.label("nobody-waiting-at-outcome")
+    for o in asks:
+        res.label("late-ask:" + o.state)
     firsts = sorted((v, k) for k, v in (("100", f100), ("end", en), ("timeout", to)) if v is not None)
     res.label("first:" + (firsts[0][1] if firsts else "none"))
     if len(firsts) >= 2:
         res.label("order:" + "<".join(k for _, k in firsts))
-    if in_window:
+    if facts["in_window"]:
         res.label("100-between-exited-and-ended")
     if w.callerdir:
-        res.label("caller-datadir:" + case["cfg"]["datadir"])
-    else:
+        res.label("caller-datadir:" + case_cfg["datadir"])
+    elif not w.direct:
         res.label("temp-datadir")
     if w.tempdir and w.ended:
         res.label("tempdir-checked-gone")
@@ -812,13 +887,13 @@ def _run(case, res, box, logs):
         res.label("manual-delivery")
     if w.skipped:
         res.label("has-skipped-actions")
-    if to is not None and not w.exited_at_timeout and timeout_first:
+    if to is not None and not w.exited_at_timeout and facts["timeout_first"]:
         res.label("timeout-signalled-running-process")
     if to is not None and w.exited_at_timeout:
         res.label("timeout-after-exit")
     if f100 is not None and to is not None and f100 < to:
         res.label("timeout-elapses-after-100")
-    if w.L.state == "ok" and w.ended:
+    if w.L is not None and w.L.state == "ok" and w.ended:
         res.label("exit-and-success-both")
     for c in w.conns:
         if c.take_tick is not None:
@@ -830,6 +905,154 @@ def _run(case, res, box, logs):
         if isinstance(e, RuntimeError) and "stderr" in str(e):
             continue
         res.label("escaped-at:" + sched[ai][0])
+    return bool(happened >= 2 and fired)
+
+
+def _run(case, res, box, logs):
+    w = _World(case, res)
+    w.start(box)
+    if w.launch_raised is not None or w.transport is None:
+        # launch() refused the arguments before spawning anything: nothing to schedule
+        res.label("launch-refused")
+        return
+    sched = [list(a) for a in case["sched"]]
+    logstate = [0]
+
+    def step(i, a):
+        w.act = i
+        w.do(a)
+        _scan_log([w], res, logs, logstate, i, a)
+        _step_checks(w, res, i, a)
+
+    _check_caller_dir(w, res, "right after launch() returned")
+    i = 0
+    for a in sched:
+        step(i, a)
+        i += 1
+    for a in w.epilogue():
+        sched.append(a)
+        step(i, a)
+        i += 1
+    facts = _judge(w, res)
+    trig_errors = w.reactor.fire_triggers("shutdown")
+    if trig_errors:
+        w.labels.add("shutdown-trigger-raised")
+    _check_caller_dir(w, res, "after the reactor's shutdown triggers ran")
+    if w.tempdir is not None and not w.ended:
+        res.label("tempdir-process-never-ended:" + ("removed-at-shutdown" if not os.path.exists(w.tempdir)
+                                                     else "left-at-shutdown"))
+    res.nontrivial = _classify(w, res, case["cfg"], sched, facts)
+
+
+def _run_pair(case, res, box, logs):
+    """Two launches on one reactor.  case = {"launches": [{"cfg":..,"sched":..}, {..}], "order": [0|1, ...],
+    "b_start": k}: launch B is started just before the k-th step (0 = together with A); `order` says whose
+    next action runs (when one schedule is used up the other continues); then A's and B's epilogues."""
+    reactor = FakeReactor()
+    group = []
+    clock = [0]
+    worlds = [_World(case["launches"][k], res, reactor=reactor, name="AB"[k] + ": ", group=group, clock=clock)
+              for k in (0, 1)]
+    group.extend(worlds)
+    scheds = [[list(a) for a in case["launches"][k]["sched"]] for k in (0, 1)]
+    pos = [0, 0]
+    logstate = [0]
+    flat = []
+    b_start = max(0, int(case.get("b_start", 0)))
+
+    def start(k):
+        w = worlds[k]
+        w.start(box)
+        if w.transport is not None:
+            _check_caller_dir(w, res, "right after launch() returned")
+
+    def step(k, a):
+        i = len(flat)
+        flat.append(a)
+        for w in worlds:
+            w.act = i
+        if worlds[k].transport is None:
+            worlds[k].skipped += 1
+        else:
+            worlds[k].do(a)
+        _scan_log(worlds, res, logs, logstate, i, a)
+        for j, w in enumerate(worlds):
+            _step_checks(w, res, i, a, own_action=(j == k))
+
+    start(0)
+    if b_start == 0:
+        start(1)
+    order = list(case.get("order", []))
+    oi = 0
+    while pos[0] < len(scheds[0]) or pos[1] < len(scheds[1]):
+        if len(flat) == b_start and not worlds[1].started:
+            start(1)
+        k = (order[oi] if oi < len(order) else 0) & 1
+        oi += 1
+        if pos[k] >= len(scheds[k]):
+            k = 1 - k
+        a = scheds[k][pos[k]]
+        pos[k] += 1
+        step(k, a)
+    if not worlds[1].started:
+        start(1)
+    for k in (0, 1):
+        if worlds[k].transport is not None:
+            for a in worlds[k].epilogue():
+                step(k, a)
+    both = all(w.transport is not None for w in worlds)
+    nt = []
+    facts = []
+    for w in worlds:
+        if w.transport is None:
+            res.label("launch-refused")
+            facts.append(None)
+            continue
+        facts.append(_judge(w, res))
+    reactor.fire_triggers("shutdown")
+    for k, w in enumerate(worlds):
+        if w.transport is None:
+            continue
+        _check_caller_dir(w, res, "after the reactor's shutdown triggers ran")
+        nt.append(_classify(w, res, case["launches"][k]["cfg"], flat, facts[k]))
+    # pair classification
+    if both:
+        a, b = worlds
+        res.label("pair:both-spawned")
+        if a.tempdir and b.tempdir:
+            res.label("pair:both-temp-datadir")
+            if a.tempdir == b.tempdir:
+                res.bad("launches-share-one-tempdir", "both launches were given %s" % a.tempdir)
+        for x, y in ((a, b), (b, a)):
+            if x.end_act is not None and (y.exit_act is None or y.exit_act > x.end_act) and y.t0 <= 10 ** 9 and \
+                    y.started and y.tempdir and x.tempdir:
+                res.label("pair:one-ended-while-other-temp-launch-running")
+                break
+        if a.ended and b.ended:
+            res.label("pair:both-ended")
+    res.nontrivial = bool(both and any(nt) and any(w.ended for w in worlds))
+
+
+def drive_pair(case):
+    res = Result()
+    base = tempfile.gettempdir()
+    box = os.path.join(base, "c19-%d-%d" % (os.getpid(), next(_counter)))
+    os.mkdir(box)
+    old_tempdir = tempfile.tempdir
+    tempfile.tempdir = box
+    try:
+        with LogCapture() as logs:
+            _run_pair(case, res, box, logs)
+    finally:
+        tempfile.tempdir = old_tempdir
+        shutil.rmtree(box, ignore_errors=True)
+    # labels of two launches: count a class once per case
+    seen = []
+    for lab in res.labels:
+        if lab not in seen:
+            seen.append(lab)
+    res.labels = seen
+    return res
 
 
 def _check_caller_dir(w, res, when):
@@ -843,7 +1066,7 @@ def _check_caller_dir(w, res, when):
         res.bad("caller-datadir-contents-removed", "the caller's file inside the DataDirectory is gone %s" % when)
 
 
-DRIVERS = {"launch": drive_launch}
+DRIVERS = {"launch": drive_launch, "pair": drive_pair}
 
 # ----------------------------------------------------------------------------- generators
 
@@ -861,6 +1084,10 @@ def configs():
         "progress_cb": st.booleans(),
         "stdio": st.booleans(),
         "hold_all": st.sampled_from([False, False, True]),
+        # direct: the public TorProcessProtocol is constructed and spawned by the caller instead of launch()
+        "direct": st.sampled_from([False, False, False, True]),
+        # whether somebody asks when_connected() right after the spawn (launch() itself always waits)
+        "ask_at_start": st.sampled_from([True, True, False]),
     })
 
 
@@ -880,6 +1107,7 @@ def cases(draw):
     exit_split = draw(st.booleans())
     with_err = _pick(draw, [False, False, True])
     with_lose = _pick(draw, [False, False, True])
+    ask_weight = _pick(draw, [0, 0, 1, 3]) if not cfg["direct"] else _pick(draw, [0, 1, 3, 3])
     sched = []
     # A light model of what is enabled, only to spend the budget on schedules that do something;
     # the driver decides for itself what is enabled and skips the rest.
@@ -925,11 +1153,13 @@ def cases(draw):
             if not cfg["auto"]:
                 opts += [("flush", 10), ("deliver", 3)]
         opts += [("tick", 1), ("any", 1)]
+        if ask_weight:
+            opts += [("ask", ask_weight)]
         names = [nm for nm, wt in opts for _ in range(wt)]
         k = _pick(draw, names)
         if k == "any":
             k = _pick(draw, ["line", "conn-ok", "own-ack", "prog", "flush", "exit", "exited", "ended",
-                                      "timeout", "conn-refuse", "lose", "err"])
+                                      "timeout", "conn-refuse", "lose", "err", "ask"])
         if k in ("line", "out", "cut"):
             if k == "line":
                 act = ["line"]
@@ -988,7 +1218,24 @@ def cases(draw):
             sched.append(["tick", _pick(draw, [1, 1, 2, 3, 5])])
         elif k == "timeout":
             sched.append(["timeout"])
+        elif k == "ask":
+            sched.append(["ask"])
     return {"cfg": cfg, "sched": sched}
+
+
+@st.composite
+def pair_cases(draw):
+    """Two launches alive on one reactor: two single-launch cases, a merge order and B's starting point."""
+    a = draw(cases())
+    b = draw(cases())
+    for c in (a, b):
+        c["cfg"]["direct"] = False
+    if _pick(draw, [True, True, False]):
+        a["cfg"]["datadir"] = "none"
+        b["cfg"]["datadir"] = "none"
+    order = draw(st.lists(st.integers(0, 1), max_size=len(a["sched"]) + len(b["sched"])))
+    b_start = _pick(draw, [0, 0, 0, 1, 2, 4, 8])
+    return {"launches": [a, b], "order": order, "b_start": b_start}
 
 
 # ----------------------------------------------------------------------------- bounded exhaustive interleavings
@@ -1087,6 +1334,55 @@ QUICK_SCENARIOS = {
 }
 
 
+DIRECT_SCENARIOS = {
+    # the public TorProcessProtocol driven directly, nobody waiting unless the schedule asks; byte-granular
+    # delivery so that a 100% written before the exit can arrive after it
+    "direct-late-ask": (_cfg(stdout=1, direct=True, ask_at_start=False, auto=False), [
+        [["line"], ["conn", "ok"], ["flush", 0]],
+        [TO_100],
+        [["exit", "code", 1]],
+        [["ask"]],
+        [["flush", 0]]]),
+    "direct-late-asks-timeout": (_cfg(stdout=1, direct=True, ask_at_start=False, auto=False, timeout=5), [
+        [["line"], ["conn", "ok"], ["flush", 0]],
+        [TO_100],
+        [["timeout"], ["exit", "signal", 15]],
+        [["ask"], ["ask"]],
+        [["flush", 0]]]),
+    "launch-late-asks": (_cfg(stdout=1, ask_at_start=False), [
+        [["line"], ["conn", "ok"], ["own", "ack", 0]],
+        [["prog", 9], TO_100],
+        [["exit", "code", 1]],
+        [["ask"], ["ask"]]]),
+}
+
+PAIR_SCENARIOS = {
+    # (cfgA, cfgB, threads of [who, action])
+    "pair-exit-vs-bootstrap": (_cfg(stdout=1), _cfg(stdout=1), [
+        [[0, ["line"]], [0, ["exit", "code", 1]]],
+        [[1, ["line"]], [1, ["conn", "ok"]], [1, TO_100], [1, ["exit", "signal", 15]]],
+        [[0, ["timeout"]]]]),
+    "pair-both-bootstrap": (_cfg(stdout=1), _cfg(stdout=1, timeout=None), [
+        [[0, ["line"]], [0, ["conn", "ok"]], [0, TO_100], [0, ["exit", "code", 0]]],
+        [[1, ["line"]], [1, ["conn", "ok"]], [1, TO_100], [1, ["exited", "code", 1]], [1, ["ended"]]]]),
+    "pair-temp-and-caller-dir": (_cfg(stdout=1, datadir="existing"), _cfg(stdout=1), [
+        [[0, ["line"]], [0, ["conn", "ok"]], [0, ["exit", "code", 1]]],
+        [[1, ["line"]], [1, ["timeout"]], [1, ["exit", "signal", 9]]]]),
+}
+
+
+def pair_scenario_cases(name):
+    cfg_a, cfg_b, threads = PAIR_SCENARIOS[name]
+    for merged in merges(threads):
+        scheds = ([], [])
+        order = []
+        for who, act in merged:
+            scheds[who].append(act)
+            order.append(who)
+        yield {"launches": [{"cfg": cfg_a, "sched": scheds[0]}, {"cfg": cfg_b, "sched": scheds[1]}],
+               "order": order, "b_start": 0}
+
+
 def scenario_cases(name, table):
     cfg, threads = table[name]
     for sched in merges(threads):
@@ -1104,7 +1400,9 @@ MANIFEST = {
             "second firing (AlreadyCalledError), every success preceded by PROGRESS=100 on an authenticated "
             "connection with TAKEOWNERSHIP written, failure when the process ended / no success when the timeout "
             "elapsed first, TERM/KILL during the timeout, temp DataDirectory present while the process runs and "
-            "gone after processEnded, caller directory intact even after the shutdown triggers. Finds "
+            "gone after processEnded, caller directory intact even after the shutdown triggers; the same for "
+            "every when_connected() Deferred asked during or after the schedule (also on a directly constructed "
+            "TorProcessProtocol nobody was waiting on) and for each of two launches sharing a reactor. Finds "
             "counterexamples within the explored schedules; does not prove absence.",
     "note": "Trusted: vlib/fakereactor.py (process transport semantics: pid None and ProcessExitedAlready "
             "after exit, no output after loseConnection), vlib/harness.py pipe, the scripted Tor (NULL auth, "
@@ -1117,12 +1415,21 @@ MANIFEST = {
 
 def run(ctx):
     ctx.enumerate("launch", scenario_cases("core-race", QUICK_SCENARIOS), name="interleavings:core-race")
-    ctx.search("launch", cases(), quick=2500, thorough=12000)
+    ctx.enumerate("launch", scenario_cases("direct-late-ask", DIRECT_SCENARIOS), name="interleavings:direct-late-ask")
+    ctx.enumerate("pair", pair_scenario_cases("pair-exit-vs-bootstrap"), name="interleavings:pair-exit-vs-bootstrap")
+    ctx.search("launch", cases(), quick=1800, thorough=8000)
+    ctx.search("pair", pair_cases(), quick=300, thorough=3000, name="pair")
     if not ctx.quick():
         ctx.enumerate("launch", scenario_cases("core-race-caller-dir", QUICK_SCENARIOS),
                       name="interleavings:core-race-caller-dir")
         for name in sorted(SCENARIOS):
             ctx.enumerate("launch", scenario_cases(name, SCENARIOS), name="interleavings:" + name)
+        for name in sorted(DIRECT_SCENARIOS):
+            if name != "direct-late-ask":
+                ctx.enumerate("launch", scenario_cases(name, DIRECT_SCENARIOS), name="interleavings:" + name)
+        for name in sorted(PAIR_SCENARIOS):
+            if name != "pair-exit-vs-bootstrap":
+                ctx.enumerate("pair", pair_scenario_cases(name), name="interleavings:" + name)
 
 
 MUTANTS = [
@@ -1160,6 +1467,20 @@ MUTANTS = [
      "        if status.value.exitCode is None:\n"),
     ("success-on-any-bootstrap-event", "txtorcon/controller.py",
      "        if prog == 100:\n", "        if prog == 100 or tag == 'enough_dirinfo':\n"),
+    # --- two launches on one reactor / late and direct use of when_connected()
+    # (the shared list only ever holds temporary directories launch() itself created)
+    ("temp-dirs-shared-across-launches", "txtorcon/controller.py",
+     "        process_protocol.to_delete = [data_directory]\n",
+     "        launch.__dict__.setdefault('_all_temp', []).append(data_directory)\n"
+     "        process_protocol.to_delete = launch.__dict__['_all_temp']\n"),
+    ("outcome-dropped-when-nobody-waits", "txtorcon/controller.py",
+     "        if self._connected_listeners is None:\n            return\n",
+     "        if not self._connected_listeners:\n            return\n"),
+    ("failure-not-remembered-for-late-askers", "txtorcon/controller.py",
+     "            self._connected_failure = arg\n", "            pass\n"),
+    ("late-asker-answers-swapped", "txtorcon/controller.py",
+     "                return fail(self._connected_failure)\n            return succeed(self)\n",
+     "                return succeed(self)\n            return fail(Failure(RuntimeError('x')))\n"),
     ("timeout-fires-success-path", "txtorcon/controller.py",
      "        fail = Failure(RuntimeError(\"timeout while launching Tor\"))\n        self._maybe_notify_connected(fail)\n",
      "        self._maybe_notify_connected(self)\n"),
